@@ -424,7 +424,9 @@ func (gs *guardState) condFacts(cond ast.Expr, pol bool, depth int) []string {
 	return out
 }
 
-// accessPaths returns the variable-rooted selector chains mentioned in e.
+// accessPaths returns the variable-rooted selector chains mentioned in e.  The root of
+// each path is qualified with the declaration position of the variable ("ok@1234"), so that
+// kills are not confused by shadowed names; fact strings themselves stay name-based.
 func accessPaths(info *types.Info, e ast.Expr) []string {
 	var out []string
 	var visit func(n ast.Node) bool
@@ -433,21 +435,69 @@ func accessPaths(info *types.Info, e ast.Expr) []string {
 		case *ast.FuncLit:
 			return false
 		case *ast.SelectorExpr:
-			if p, ok := selectorPath(info, n); ok {
+			if p, ok := qualPath(info, n); ok {
 				out = append(out, p)
 				return false
 			}
 			// method value / call: path of the receiver
 			return true
 		case *ast.Ident:
-			if _, ok := info.Uses[n].(*types.Var); ok {
-				out = append(out, n.Name)
+			if p, ok := qualPath(info, n); ok {
+				out = append(out, p)
 			}
 		}
 		return true
 	}
 	ast.Inspect(e, visit)
 	return out
+}
+
+// qualPath is selectorPath with the root identifier qualified by its object's position.
+func qualPath(info *types.Info, e ast.Expr) (string, bool) {
+	p, ok := selectorPath(info, e)
+	if !ok {
+		return "", false
+	}
+	root := e
+	for {
+		switch x := unparen(root).(type) {
+		case *ast.SelectorExpr:
+			root = x.X
+			continue
+		case *ast.StarExpr:
+			root = x.X
+			continue
+		}
+		break
+	}
+	id, isID := unparen(root).(*ast.Ident)
+	if !isID {
+		return p, true
+	}
+	var obj types.Object = info.Uses[id]
+	if obj == nil {
+		obj = info.Defs[id]
+	}
+	if obj == nil {
+		return p, true
+	}
+	i := strings.IndexAny(p, ".")
+	if i < 0 {
+		return fmt.Sprintf("%s@%d", p, obj.Pos()), true
+	}
+	return fmt.Sprintf("%s@%d%s", p[:i], obj.Pos(), p[i:]), true
+}
+
+func stripQual(p string) string {
+	i := strings.Index(p, "@")
+	if i < 0 {
+		return p
+	}
+	j := i + 1
+	for j < len(p) && p[j] >= '0' && p[j] <= '9' {
+		j++
+	}
+	return p[:i] + p[j:]
 }
 
 // selectorPath renders x.a.b when every step is a field selection rooted at a variable.
@@ -493,8 +543,19 @@ func selectorPath(info *types.Info, e ast.Expr) (string, bool) {
 // ---- transfer ----
 
 func (gs *guardState) kill(s factSet, lpath string) {
+	qualified := strings.Contains(lpath, "@")
 	for f := range s {
 		for _, p := range gs.paths[f] {
+			if !qualified {
+				p = stripQual(p)
+			} else if !strings.Contains(p, "@") {
+				// unqualified mention (rule-supplied): compare by name
+				if q := stripQual(lpath); p == q || strings.HasPrefix(p, q+".") {
+					delete(s, f)
+					break
+				}
+				continue
+			}
 			if p == lpath || strings.HasPrefix(p, lpath+".") {
 				delete(s, f)
 				break
@@ -594,7 +655,7 @@ func (gs *guardState) transfer(s factSet, n ast.Node) {
 			}
 			break
 		}
-		if p, ok := selectorPath(gs.info, l); ok {
+		if p, ok := qualPath(gs.info, l); ok {
 			gs.kill(s, p)
 		}
 	}
@@ -610,7 +671,9 @@ func (gs *guardState) transfer(s factSet, n ast.Node) {
 					if b, ok := gs.info.Uses[id].(*types.Builtin); ok && b.Name() == "append" {
 						if lp, ok := selectorPath(gs.info, n.Lhs[0]); ok {
 							f := fFalse("len(" + lp + ") == 0")
-							gs.paths[f] = []string{lp}
+							if qp, ok := qualPath(gs.info, n.Lhs[0]); ok {
+								gs.paths[f] = []string{qp}
+							}
 							s[f] = struct{}{}
 						}
 					}
@@ -627,7 +690,11 @@ func (gs *guardState) transfer(s factSet, n ast.Node) {
 		}
 	case *ast.ValueSpec:
 		for i, id := range n.Names {
-			gs.kill(s, id.Name)
+			if qp, ok := qualPath(gs.info, id); ok {
+				gs.kill(s, qp)
+			} else {
+				gs.kill(s, id.Name)
+			}
 			if len(n.Values) == len(n.Names) {
 				gs.recordImp(s, id, n.Values[i])
 			}
@@ -639,7 +706,11 @@ func (gs *guardState) transfer(s factSet, n ast.Node) {
 	case *ast.Ident:
 		// range key/value definitions appear as bare nodes
 		if _, ok := gs.info.Defs[n].(*types.Var); ok {
-			gs.kill(s, n.Name)
+			if qp, ok := qualPath(gs.info, n); ok {
+				gs.kill(s, qp)
+			} else {
+				gs.kill(s, n.Name)
+			}
 		}
 	}
 }
@@ -1076,73 +1147,16 @@ func (gs *guardState) closeImplications(s factSet) {
 	}
 }
 
-func (gs *guardState) mergeWithImplications(a, b factSet) factSet {
-	out := factSet{}
-	for k := range a {
-		if b.Has(k) {
-			out[k] = struct{}{}
-		}
-	}
-	gen := func(x, y factSet) {
-		// facts of x missing in y, conditioned on the negation of y's literals
-		for f := range x {
-			if y.Has(f) {
-				continue
-			}
-			if isCarriedFact(f) {
-				for g := range y {
-					if !isLiteralFact(g) || x.Has(g) {
-						continue
-					}
-					h := complement(g)
-					imp := "J:" + h + "=>" + f
-					gs.paths[imp] = append(append([]string{}, gs.paths[g]...), gs.paths[f]...)
-					out[imp] = struct{}{}
-				}
-			}
-			if strings.HasPrefix(f, "J:") {
-				// an implication survives if the other side makes it vacuous or satisfied
-				i := strings.Index(f, "=>")
-				h, c := f[2:i], f[i+2:]
-				if y.Has(c) || y.Has(complement(h)) {
-					out[f] = struct{}{}
-				}
-			}
-		}
-	}
-	gen(a, b)
-	gen(b, a)
-	return out
-}
-
+// solveImplications computes implication facts.  At a merge block b with incoming edge
+// fact sets O_q (phase 1, fixed), "J:<not g>=><f>" is generated when f is a carried fact
+// (E:/C:) that holds on some but not all edges and every edge lacking f carries literal g:
+// whoever reaches b with g false came over an edge on which f holds.  The generated facts
+// are then propagated as an ordinary forward must-analysis (constant gen sets, kills by
+// assignment), which is monotone and therefore also valid across loops.
 func (gs *guardState) solveImplications() {
 	n := len(gs.g.Blocks)
 	if n == 0 {
 		return
-	}
-	// reverse post-order
-	order := make([]*cfg.Block, 0, n)
-	seen := make([]bool, n)
-	var dfs func(b *cfg.Block)
-	dfs = func(b *cfg.Block) {
-		seen[b.Index] = true
-		for _, s := range b.Succs {
-			if !seen[s.Index] {
-				dfs(s)
-			}
-		}
-		order = append(order, b)
-	}
-	dfs(gs.g.Blocks[0])
-	for i, j := 0, len(order)-1; i < j; i, j = i+1, j-1 {
-		order[i], order[j] = order[j], order[i]
-	}
-	rank := make([]int, n)
-	for i := range rank {
-		rank[i] = -1
-	}
-	for i, b := range order {
-		rank[b.Index] = i
 	}
 	preds := make([][]*cfg.Block, n)
 	for _, b := range gs.g.Blocks {
@@ -1150,51 +1164,137 @@ func (gs *guardState) solveImplications() {
 			preds[s.Index] = append(preds[s.Index], b)
 		}
 	}
-	in2 := make([]factSet, n)
-	in2[0] = gs.in[0].clone()
-	for _, b := range order {
-		if b.Index == 0 || gs.in[b.Index] == nil {
-			continue
+	edgeOut := func(p *cfg.Block, b *cfg.Block, base factSet) []factSet {
+		var outs []factSet
+		o := base.clone()
+		for _, nd := range p.Nodes {
+			gs.transfer(o, nd)
 		}
-		var acc factSet
-		first := true
-		for _, p := range preds[b.Index] {
-			if !p.Live || gs.in[p.Index] == nil || rank[p.Index] < 0 {
+		for i, s := range p.Succs {
+			if s != b {
 				continue
 			}
-			var src factSet
-			if rank[p.Index] < rank[b.Index] && in2[p.Index] != nil {
-				src = in2[p.Index]
-			} else {
-				src = gs.in[p.Index] // back edge: plain facts
+			o2 := o.clone()
+			for _, f := range gs.edgeFacts(p, i, o) {
+				o2[f] = struct{}{}
 			}
-			o := src.clone()
-			for _, nd := range p.Nodes {
-				gs.transfer(o, nd)
-			}
-			for i, s := range p.Succs {
-				if s != b {
-					continue
-				}
-				o2 := o.clone()
-				for _, f := range gs.edgeFacts(p, i, o) {
-					o2[f] = struct{}{}
-				}
-				if first {
-					acc, first = o2, false
-				} else {
-					acc = gs.mergeWithImplications(acc, o2)
-				}
-			}
+			outs = append(outs, o2)
 		}
-		if first {
+		return outs
+	}
+	gen := make([]factSet, n)
+	for _, b := range gs.g.Blocks {
+		if !b.Live || gs.in[b.Index] == nil {
 			continue
 		}
-		// never claim less than phase 1 proved
-		for k := range gs.in[b.Index] {
-			acc[k] = struct{}{}
+		var edges []factSet
+		for _, p := range preds[b.Index] {
+			if !p.Live || gs.in[p.Index] == nil {
+				continue
+			}
+			edges = append(edges, edgeOut(p, b, gs.in[p.Index])...)
 		}
-		in2[b.Index] = acc
+		if len(edges) < 2 {
+			continue
+		}
+		carried := map[string]int{}
+		for _, e := range edges {
+			for f := range e {
+				if isCarriedFact(f) {
+					carried[f]++
+				}
+			}
+		}
+		for f, cnt := range carried {
+			if cnt == len(edges) {
+				continue // holds everywhere: already a plain must-fact
+			}
+			// candidate literals: those of the first edge lacking f
+			var lacking []factSet
+			for _, e := range edges {
+				if !e.Has(f) {
+					lacking = append(lacking, e)
+				}
+			}
+			for g := range lacking[0] {
+				if !isLiteralFact(g) {
+					continue
+				}
+				all := true
+				for _, e := range lacking[1:] {
+					if !e.Has(g) {
+						all = false
+					}
+				}
+				// an edge that has f must not also force g (otherwise "not g" never holds there: still sound) - no constraint
+				if !all {
+					continue
+				}
+				imp := "J:" + complement(g) + "=>" + f
+				gs.paths[imp] = append(append([]string{}, gs.paths[g]...), gs.paths[f]...)
+				if gen[b.Index] == nil {
+					gen[b.Index] = factSet{}
+				}
+				gen[b.Index][imp] = struct{}{}
+			}
+		}
+	}
+	// forward must-analysis over J facts only
+	inJ := make([]factSet, n)
+	inJ[0] = factSet{}
+	onlyJ := func(s factSet) factSet {
+		out := factSet{}
+		for k := range s {
+			if strings.HasPrefix(k, "J:") {
+				out[k] = struct{}{}
+			}
+		}
+		return out
+	}
+	for changed, iter := true, 0; changed && iter < 100; iter++ {
+		changed = false
+		for _, b := range gs.g.Blocks {
+			if b.Index == 0 || !b.Live {
+				continue
+			}
+			var acc factSet
+			first := true
+			for _, p := range preds[b.Index] {
+				if !p.Live || inJ[p.Index] == nil {
+					continue
+				}
+				o := inJ[p.Index].clone()
+				for _, nd := range p.Nodes {
+					gs.transfer(o, nd)
+				}
+				o = onlyJ(o)
+				if first {
+					acc, first = o, false
+				} else {
+					acc = intersect(acc, o)
+				}
+			}
+			if first {
+				continue
+			}
+			for k := range gen[b.Index] {
+				acc[k] = struct{}{}
+			}
+			if inJ[b.Index] == nil || !sameFacts(inJ[b.Index], acc) {
+				inJ[b.Index] = acc
+				changed = true
+			}
+		}
+	}
+	in2 := make([]factSet, n)
+	for i := range in2 {
+		if gs.in[i] == nil {
+			continue
+		}
+		in2[i] = gs.in[i].clone()
+		for k := range inJ[i] {
+			in2[i][k] = struct{}{}
+		}
 	}
 	gs.in2 = in2
 }
